@@ -180,10 +180,16 @@ type c04PoolCfg struct {
 	// and the pool's failureCodes.
 	RetryPolicy  string `json:"retryPolicy,omitempty"`
 	FailureCodes []int  `json:"failureCodes,omitempty"`
+	// only set by the registry-fault monitor (c04_registry_test.go): name of the registry
+	// driver; with it the pool runs its own watchServers instead of being fed by the harness.
+	ServiceRegistry string `json:"serviceRegistry,omitempty"`
 }
 
 func (c *c04PoolCfg) raw() map[string]interface{} {
 	pool := map[string]interface{}{}
+	if c.ServiceRegistry != "" {
+		pool["serviceRegistry"] = c.ServiceRegistry
+	}
 	if c.ServiceName != "" {
 		pool["serviceName"] = c.ServiceName
 	}
